@@ -644,14 +644,22 @@ Definition build_fts (l : list input_ft) : list gft := map build_ft l.
 
 Definition wf_C01 (op : N) (f : fmt) (xs ys : list input_seq) (fts : list gft) (t : str) : bool :=
   match op with
-  | 0%N => wf_basket f xs
-           && match fts with
-              | [] => true
-              | _ => match f with Gff => distinct (input_ids xs) && forallb wf_gft fts | _ => false end
-              end
+  | 0%N | 3%N =>
+      wf_basket f xs
+      && match fts with
+         | [] => true
+         | _ => match f with Gff => distinct (input_ids xs) && forallb wf_gft fts | _ => false end
+         end
   | 1%N => match f with Fasta => wf_basket Fasta (xs ++ ys) | _ => false end
   | _ => wf_text f t
   end.
+
+(* single steps of a history (the model is pure: each step is the model applied to the current value) *)
+Definition write_read (f : fmt) (fts : list gft) (b0 : list bseq) : res val :=
+  bind (write_w_fts f fts b0) (fun t1 =>
+  bind (read_content f t1) (fun o1 => Ok (VL [show_content t1; show_basket o1]))).
+Definition read_once (f : fmt) (t : str) : res val :=
+  bind (read_content f (CText t)) (fun o1 => Ok (show_basket o1)).
 
 Definition run_C01 (op fmtn : N) (xs ys : list input_seq) (fl : list input_ft) (t : str) : val :=
   let f := fmt_of_N fmtn in
@@ -660,5 +668,7 @@ Definition run_C01 (op fmtn : N) (xs ys : list input_seq) (fl : list input_ft) (
       show_res (match op with
                 | 0%N => cycle_from f fts (build xs)
                 | 1%N => append_halves f (build xs) (build ys)
-                | _ => cycle_text f t
+                | 2%N => cycle_text f t
+                | 3%N => write_read f fts (build xs)
+                | _ => read_once f t
                 end)].
